@@ -53,7 +53,7 @@ package keeper
 // too, so (pool total - this position's available amount) does not move; principal and identity of the position and every
 // other position are untouched.
 //@ func (k Keeper) IterateLends
-//@   property C08
+//@   property C08, C18
 //@   modular
 //@   modifies lend, bank
 //@   let l0 = k.GetLend(ctx, ID).0
@@ -70,6 +70,11 @@ package keeper
 //@   ensures #c08-accrual-frame: result1 == nil ==> forall j :: j != ID ==> k.GetLend(ctx, j) == old(k.GetLend(ctx, j))
 //@   ensures #c08-accrual-mapping-frame: result1 == nil ==> forall o, j :: k.GetUserLendBorrowMapping(ctx, o, j) == old(k.GetUserLendBorrowMapping(ctx, o, j))
 //@   ensures #c08-accrual-missing: !lf0 ==> true
+//@   let lsecs = lendElapsed(blocktime(), l0.LastInteractionTime)
+//@   let lrate = k.GetLendAPRByAssetIDAndPoolID(ctx, l0.PoolID, l0.AssetID).0
+//@   let tr0 = ite(k.GetLendRewardTracker(ctx, ID).1, k.GetLendRewardTracker(ctx, ID).0.RewardsAccumulated, 0)
+//@   letpost tr1 = k.GetLendRewardTracker(ctx, ID).0.RewardsAccumulated
+//@   ensures [C18] #c18-lend-reward-accrues-on-amount-lent: result1 == nil && lf0 && l0.GlobalIndex > 0 && lsecs >= 0 && blocktime() >= 0 && blocktime() <= pow2(62) && l0.LastInteractionTime >= 0 && l0.LastInteractionTime <= pow2(62) && (k.GetLendRewardTracker(ctx, ID).1 ==> k.GetLendRewardTracker(ctx, ID).0.LendingId == ID) ==> tr1 + ONE * (l1.AvailableToBorrow - l0.AvailableToBorrow) == tr0 + indexAccrual(l0.AmountIn.Amount * ONE, lrate, l0.GlobalIndex, lsecs)
 
 // ---- interest-rate model (C18) ----
 // The borrow rate equals the two-segment spec function of the pool utilisation u (18-digit fixed point):
